@@ -2,6 +2,8 @@ use crate::engine::{Ctx, Fail, Report};
 use serde_json::Value;
 
 pub mod c08;
+pub mod c10;
+pub mod c11;
 
 pub struct PropDef {
     pub id: &'static str,
@@ -11,5 +13,9 @@ pub struct PropDef {
 }
 
 pub fn registry() -> Vec<PropDef> {
-    vec![PropDef { id: "C08", run: c08::run, replay: c08::replay }]
+    vec![
+        PropDef { id: "C08", run: c08::run, replay: c08::replay },
+        PropDef { id: "C10", run: c10::run, replay: c10::replay },
+        PropDef { id: "C11", run: c11::run, replay: c11::replay },
+    ]
 }
